@@ -1,7 +1,7 @@
 #!/bin/sh
 # runs every claimed quick (or $1) check in sequence; prints one status line per property
 tier=${1:-quick}
-cd /verif
+cd "$(dirname "$0")/.."
 for id in $(/venv/bin/python -c "import json;print(' '.join(c['property_id'] for c in json.load(open('MANIFEST.json'))['checks']))"); do
   s=$(date +%s)
   out=$(timeout 3600 /venv/bin/python check.py --property $id --tier $tier 2>&1); rc=$?
